@@ -50,11 +50,19 @@ func seqOfEmpty(from, to int) tlx.Val {
 }
 
 // NewDQueue: one producer (id 0) and n consumers (1..n) over bounded FIFO channels; the stream yields distinct items.
+// SpecFaithfulStream makes NewDQueue use the spec's CyclicReads stream (items repeat) instead of distinct items.
+var SpecFaithfulStream = false
+
 func NewDQueue(n, bufSize int, draw func(string, int) int, choose func(*sched.Instance, string, uint) uint) *Sys {
 	s := newSys(draw, choose)
 	s.Store.Vars["network"] = seqOfEmpty(0, n)
 	s.Store.Vars["processor"] = tlx.Int(0)
 	s.Store.Vars["stream"] = tlx.Int(1000)
+	stream := specenv.Counter()
+	if SpecFaithfulStream {
+		s.Store.Vars["stream"] = tlx.Int(0)
+		stream = specenv.CyclicReads(bufSize)
+	}
 	consts := distsys.EnsureMPCalContextConfigs(
 		distsys.DefineConstantValue("NUM_CONSUMERS", tla.MakeNumber(int32(n))),
 		distsys.DefineConstantValue("PRODUCER", tla.MakeNumber(0)))
@@ -62,7 +70,7 @@ func NewDQueue(n, bufSize int, draw func(string, int) int, choose func(*sched.In
 		return distsys.EnsureArchetypeRefParam("net", s.Store.Var("network", 1, specenv.TCPChannel(bufSize)))
 	}
 	s.add("producer", "Producer(0)", 0, dqueue.AProducer, consts, net(),
-		distsys.EnsureArchetypeRefParam("s", s.Store.Var("stream", 0, specenv.Counter())))
+		distsys.EnsureArchetypeRefParam("s", s.Store.Var("stream", 0, stream)))
 	for c := 1; c <= n; c++ {
 		s.add("consumer", fmt.Sprintf("Consumer(%d)", c), c, dqueue.AConsumer, consts, net(),
 			distsys.EnsureArchetypeRefParam("proc", s.Store.Var("processor", 0, specenv.Identity)))
